@@ -401,6 +401,53 @@ func init() {
 				core.CallArgs{Fn: grp + "Check", Callee: []string{grp + "CheckWithFork"}, What: "forks evaluated at the same height that is checked",
 					Args: map[int]core.ExprPred{0: core.IsObj("param:0"), 3: core.IsObj("param:1"), 4: core.IsObj("param:2"), 5: core.IsObj("param:3")}, Min: 1}.Check(r)
 			}),
+			rule("R17d", "producer side: the hash chain is built back to front; size boundaries agree", 6, func(r *Run) {
+				// A member's hash covers its own Next, so Next pointers must be fixed from the last
+				// member towards the first: the store to Next sits in a canonical reverse loop.
+				isTxs := func(c *core.Ctx, e ast.Expr) bool {
+					return core.DerivedFrom("types.Transactions.Txs")(c, e) || core.IsObj("param:0")(c, e) || core.Mentions("types.Transactions.Txs")(c, e)
+				}
+				for _, fn := range []string{"types.CreateTxGroup", grp + "RebuiltGroup"} {
+					f := r.Fn(fn)
+					if f == nil {
+						continue
+					}
+					c := f.Ctx()
+					ok := false
+					var pos token.Pos
+					for _, lp := range core.LoopsIn(f) {
+						if !core.ReverseLoopOver(isTxs)(c, lp) {
+							continue
+						}
+						ast.Inspect(lp, func(x ast.Node) bool {
+							if as, isAs := x.(*ast.AssignStmt); isAs && len(core.StoresTo(c, as, "types.Transaction.Next")) > 0 && len(as.Rhs) == 1 && core.CallsAny(txm+"Hash")(c, as.Rhs[0]) {
+								ok = true
+								pos = as.Pos()
+							}
+							return true
+						})
+					}
+					// and nowhere else
+					outside := false
+					ast.Inspect(f.Body(), func(x ast.Node) bool {
+						if as, isAs := x.(*ast.AssignStmt); isAs && len(core.StoresTo(c, as, "types.Transaction.Next")) > 0 && as.Pos() != pos {
+							outside = true
+						}
+						return true
+					})
+					label := fn + " fixes Next pointers from the last member to the first"
+					if ok && !outside {
+						r.OK(label, r.W.Pos(pos), "Next = successor.Hash() inside `for i := len-1; i >= 0; i--`")
+					} else {
+						r.Fail(label, r.W.Pos(f.Node().Pos()), fmt.Sprintf("Next stored in a reverse loop=%v, also stored elsewhere=%v: a Next computed from a successor whose own Next is still stale breaks the chain for groups of three or more", ok, outside))
+					}
+				}
+				// group size boundary: a group of exactly MaxTxGroupSize (20) members is legal everywhere
+				core.AnyComparison{Fn: txm + "GetTxGroup", Name: "GroupCount > 20 rejected (20 itself accepted)", L: core.Mentions("types.Transaction.GroupCount"), R: core.IsConstInt(20), Rel: token.GTR}.Check(r)
+				core.AnyComparison{Fn: txm + "GetTxGroup", Name: "GroupCount == 1 rejected", L: core.Mentions("types.Transaction.GroupCount"), R: core.IsConstInt(1), Rel: token.EQL}.Check(r)
+				core.AnyComparison{Fn: txm + "GetTxGroup", Name: "GroupCount < 0 rejected", L: core.Mentions("types.Transaction.GroupCount"), R: core.IsConstInt(0), Rel: token.LSS}.Check(r)
+				core.AnyComparison{Fn: grp + "CheckWithFork", Name: "GroupCount > MaxTxGroupSize (=20) rejected", L: core.Mentions("types.Transaction.GroupCount"), R: core.IsConstInt(20), Rel: token.GTR}.Check(r)
+			}),
 			rule("R17c", "group signature check covers every member; cached verdict only from a true result", 5, func(r *Run) {
 				isTxs := func(c *core.Ctx, e ast.Expr) bool { return core.DerivedFrom("types.Transactions.Txs")(c, e) }
 				core.Dominated{Fn: grp + "CheckSign", Spec: &core.FlowSpec{Calls: []core.CallGuard{isTrue("member-sig-ok", txm+"checkSign")},
